@@ -55,6 +55,11 @@ Theorem C08_table_nonvacuous : curated <> [] /\ translator_ok = true.
 Proof. exact curated_nonempty. Qed.
 Print Assumptions C08_table_nonvacuous.
 
+(* the table still holds (at least) the 88 elements the property is stated for *)
+Theorem C08_table_size : (88 <= length curated)%nat.
+Proof. exact curated_size. Qed.
+Print Assumptions C08_table_size.
+
 (* hence every curated element is element-wise on every combination that is not a
    documented overload *)
 Theorem C08_curated1 : forall e, In e curated -> de_arity e = 1%nat ->
